@@ -43,7 +43,8 @@ type Conn struct {
 
 	SentUpper int // bytes the client has queued so far
 	Remote    net.Addr
-	Timeouts  int // reads that ended with a deadline error
+	Timeouts  int         // reads that ended with a deadline error
+	OnRead    func(k int) // called after the k-th successful Read obtained its bytes, before it returns
 }
 
 func NewConn() *Conn {
@@ -75,6 +76,12 @@ func (c *Conn) Read(p []byte) (int, error) {
 			}
 			c.ReadLog = append(c.ReadLog, append([]byte(nil), p[:n]...))
 			c.cond.Broadcast()
+			if hook := c.OnRead; hook != nil {
+				k := len(c.ReadLog)
+				c.mu.Unlock()
+				hook(k) // runs between the Read and its return, without the lock
+				c.mu.Lock()
+			}
 			return n, nil
 		}
 		if c.inClosed {
@@ -341,20 +348,10 @@ func OpsCoq(ops [][]Op) string {
 	return hlib.List(outer)
 }
 
+// StateCoq writes a hook call as the integer value of the ConnState; Check/C14Check.v `st` decodes it with the
+// constants the translator regenerates from server.go.
 func StateCoq(s fasthttp.ConnState) string {
-	switch s {
-	case fasthttp.StateNew:
-		return "StNew"
-	case fasthttp.StateActive:
-		return "StActive"
-	case fasthttp.StateIdle:
-		return "StIdle"
-	case fasthttp.StateHijacked:
-		return "StHijacked"
-	case fasthttp.StateClosed:
-		return "StClosed"
-	}
-	return "StNew"
+	return "(st " + hlib.Z(int64(s)) + ")"
 }
 
 func TailCoq(eof bool) string {
@@ -516,6 +513,7 @@ type Scenario struct {
 	Reject  string `json:"reject,omitempty"` // "", "conc" (Concurrency limit), "perip" (MaxConnsPerIP)
 	HjIn    int    `json:"hjin,omitempty"`   // hijack handler: bytes to read before returning (-1: until EOF)
 	HjLate  bool   `json:"hjlate,omitempty"` // KeepHijackedConns: keep reading (to EOF) after the handler returned
+	GoneAt  int    `json:"gone,omitempty"`   // Serve only: during the read that delivers the first byte of this request (1-based read count), Shutdown runs and closes the connection as idle
 	Early   bool   `json:"early,omitempty"`  // observe whether the server closes on its own after the last step
 	StepGap int    `json:"gap,omitempty"`    // ms to sleep before each step
 }
@@ -738,6 +736,15 @@ func RunScenario(sc Scenario) Result {
 		}
 	}
 
+	if sc.GoneAt > 0 {
+		conn.OnRead = func(k int) {
+			if k != sc.GoneAt {
+				return
+			}
+			go srv.Shutdown() //nolint:errcheck
+			conn.Wait(2*time.Second, func() bool { return conn.Closed })
+		}
+	}
 	nresp := func() int {
 		rs, _ := ParseResponses(conn.Out)
 		n := 0
